@@ -12,7 +12,7 @@ def parse_runs(path):
         if not m:
             continue
         pid, patch, tier, code, wall, sigs = m.groups()
-        x = re.search(r'([abc])\.patch\.diff|-r\d([abc])/patch\.diff', patch)
+        x = re.search(r'([abc])\.patch\.diff|-r\d+([abc])/patch\.diff', patch)
         letter = x.group(1) or x.group(2)
         out[(pid, letter)] = dict(exit=int(code), wall=float(wall) if wall else None, sigs=[s.split('=', 1)[1] for s in sigs.split() if s.startswith('signature=')])
     return out
